@@ -240,6 +240,7 @@ func (d *desc) walk(seen map[*desc]bool, f func(*desc, *fieldDesc)) {
 // features of a type that decide which oracle clauses apply.
 type feat struct {
 	optional, tail, raw, iface bool
+	byteArr1                  bool // holds a [1]byte: go-ethereum v1.9.15 mis-decodes [1]byte{0} (ignores the error of s.Uint() and desynchronises)
 	nestLSL                   bool // a list inside a struct inside a list (the DESIGN non-trivial rule)
 }
 
@@ -256,16 +257,23 @@ func (d *desc) features() feat {
 			ft.raw = true
 		case kIface:
 			ft.iface = true
+		case kByteArr:
+			ft.byteArr1 = ft.byteArr1 || x.n == 1
 		}
 	})
-	ft.nestLSL = d.nest(0, map[*desc]bool{})
+	ft.nestLSL = d.nest(false, map[*desc]bool{})
 	return ft
 }
 
-func (d *desc) isListKind() bool { return d.k == kSlice || d.k == kArray || d.k == kStruct }
+func (d *desc) isListKind() bool {
+	for d.k == kPtr {
+		d = d.elem
+	}
+	return d.k == kSlice || d.k == kArray || d.k == kStruct
+}
 
-// nest: state 0 = nothing yet, 1 = inside a list-like, 2 = inside a struct that is inside a list-like.
-func (d *desc) nest(state int, seen map[*desc]bool) bool {
+// nest: inList says that d sits (possibly through pointers) directly inside a list-like value.
+func (d *desc) nest(inList bool, seen map[*desc]bool) bool {
 	if seen[d] {
 		return false
 	}
@@ -273,27 +281,18 @@ func (d *desc) nest(state int, seen map[*desc]bool) bool {
 	defer delete(seen, d)
 	switch d.k {
 	case kPtr:
-		return d.elem.nest(state, seen)
+		return d.elem.nest(inList, seen)
 	case kSlice, kArray:
-		if state == 2 {
-			return true
-		}
-		return d.elem.nest(1, seen)
+		return d.elem.nest(true, seen)
 	case kStruct:
-		ns := state
-		if state >= 1 {
-			ns = 2
-		} else {
-			ns = 1 // a struct is itself an RLP list
-		}
 		for _, f := range d.fields {
 			if f.ignore {
 				continue
 			}
-			if state == 2 && f.d.isListKind() {
+			if inList && f.d.isListKind() {
 				return true
 			}
-			if f.d.nest(ns, seen) {
+			if f.d.nest(true, seen) {
 				return true
 			}
 		}
@@ -484,6 +483,31 @@ type encCtx struct {
 	f       fault // which fault
 	huge    uint64
 	applied fault // what was really applied (a non-applicable fault falls back)
+	info    []emInfo // recorded when faultAt < 0: what each emission looks like (to aim faults)
+}
+
+type emInfo struct {
+	single, isInt, list bool
+	n                   int
+}
+
+// applicable: can fault f be injected at an emission of this shape without falling back?
+func (e emInfo) applicable(f fault) bool {
+	switch f {
+	case fLongForm:
+		return e.n < 56 && !e.single
+	case fLongFormZ:
+		return e.n < 256 && !e.single
+	case fLeadZeroLen:
+		return e.n >= 56
+	case fWrap1:
+		return e.single
+	case fIntLeadZero:
+		return e.isInt
+	case fSizeMinus:
+		return e.n > 0
+	}
+	return true
 }
 
 func beLen(n uint64) []byte {
@@ -511,6 +535,9 @@ func (c *encCtx) emit(list bool, isInt bool, payload []byte) []byte {
 	idx := c.count
 	c.count++
 	single := !list && len(payload) == 1 && payload[0] < 0x80
+	if c.faultAt < 0 {
+		c.info = append(c.info, emInfo{single: single, isInt: isInt, list: list, n: len(payload)})
+	}
 	if idx != c.faultAt || c.f == fNone {
 		if single {
 			return []byte{payload[0]}
